@@ -210,6 +210,18 @@ def protocol_time_course_residual(
             return cast(float, np.inf)
 
 
+def _as_fit(model: Model, parameters: dict[str, float], residual: float) -> Fit:
+    """Fit whose model holds the reported values.
+
+    The residual functions leave the model at the last candidate the minimizer
+    evaluated, which need not be the best one.
+    """
+    p_names = model.get_parameter_names()
+    model.update_parameters({k: v for k, v in parameters.items() if k in p_names})
+    model.update_variables({k: v for k, v in parameters.items() if k not in p_names})
+    return Fit(model=model, best_pars=parameters, loss=residual)
+
+
 def steady_state(
     model: Model,
     *,
@@ -268,13 +280,7 @@ def steady_state(
     )
     match minimizer(fn, p0, {} if bounds is None else bounds).value:
         case OptimisationState(parameters, residual):
-            return Result(
-                Fit(
-                    model=model,
-                    best_pars=parameters,
-                    loss=residual,
-                )
-            )
+            return Result(_as_fit(model, parameters, residual))
         case _ as e:
             return Result(e)
 
@@ -337,13 +343,7 @@ def time_course(
 
     match minimizer(fn, p0, {} if bounds is None else bounds).value:
         case OptimisationState(parameters, residual):
-            return Result(
-                Fit(
-                    model=model,
-                    best_pars=parameters,
-                    loss=residual,
-                )
-            )
+            return Result(_as_fit(model, parameters, residual))
         case _ as e:
             return Result(e)
 
@@ -418,13 +418,7 @@ def protocol_time_course(
 
     match minimizer(fn, p0, {} if bounds is None else bounds).value:
         case OptimisationState(parameters, residual):
-            return Result(
-                Fit(
-                    model=model,
-                    best_pars=parameters,
-                    loss=residual,
-                )
-            )
+            return Result(_as_fit(model, parameters, residual))
         case _ as e:
             return Result(e)
 
